@@ -94,16 +94,20 @@ structure Resp where
 
 def blank (s : Bytes) : Bool := (trimSpace s).isEmpty
 
-/-- `DigitsFromStr` / `AlgorithmFromStr`: regenerated tables with their fallbacks -/
+/-- `DigitsFromStr` / `AlgorithmFromStr`: the documented spellings of code lengths and hashes; every other text means 6 digits / SHA-1.  (That the code
+recognises exactly these is the regenerated fact `C18_fromStr_documented`.) -/
+def documentedDigits : List (String × Nat) := [("6", 6), ("8", 8), ("9", 9), ("10", 10)]
+def documentedAlgos : List (String × Nat) := [("SHA1", 0), ("SHA256", 1), ("SHA512", 2)]
+
 def digitsFromStr (s : Bytes) : Nat :=
-  match Gen.digitsFromStr.find? (fun e => e.1.toUTF8.toList == s) with
+  match documentedDigits.find? (fun e => e.1.toUTF8.toList == s) with
   | some e => e.2
-  | none => Gen.digitsFallback
+  | none => 6
 
 def algoFromStr (s : Bytes) : Nat :=
-  match Gen.algoFromStr.find? (fun e => e.1.toUTF8.toList == s) with
+  match documentedAlgos.find? (fun e => e.1.toUTF8.toList == s) with
   | some e => e.2
-  | none => Gen.algoFallback
+  | none => 0
 
 def err (status : Nat) : Resp := ⟨status, .none⟩
 
